@@ -113,7 +113,6 @@ Qed.
    network layer may still hold switched off for deliveries and for stream ends *)
 Record Quiet (s : sstate) : Prop := {
   q_open : s_open s = false;
-  q_bal : s_balancing s = false;
   q_nil : s_obs_nil s = true;
   q_obs : forall vb ob, s_obs s vb = Some ob -> ob_closed ob = true /\ ob_end_closed ob = true
 }.
@@ -172,13 +171,13 @@ Qed.
 
 Lemma quiet_same_rest s s' : same_rest s s' -> Quiet s -> Quiet s'.
 Proof.
-  intros (_ & _ & Ho & Hn & Hop & Hb & _) Q. destruct Q as [q1 q2 q3 q4]. constructor; try congruence.
+  intros (_ & _ & Ho & Hn & Hop & Hb & _) Q. destruct Q as [q1 q3 q4]. constructor; try congruence.
   rewrite Ho. exact q4.
 Qed.
 
 Lemma quiet_core s s' : core_same s s' -> Quiet s -> Quiet s'.
 Proof.
-  intros (_ & _ & _ & Ho & Hn & Hop & Hb & _) Q. destruct Q as [q1 q2 q3 q4]. constructor; try congruence.
+  intros (_ & _ & _ & Ho & Hn & Hop & Hb & _) Q. destruct Q as [q1 q3 q4]. constructor; try congruence.
   rewrite Ho. exact q4.
 Qed.
 
@@ -194,11 +193,10 @@ Theorem quiet_step s o :
   Quiet (fst (step s o)) /\
   forall x, In x (snd (step s o)) -> match x with Consume _ _ _ _ _ _ | OpenReq _ _ => False | _ => True end.
 Proof.
-  intros Q L. destruct Q as [q1 q2 q3 q4]. assert (Q : Quiet s) by (constructor; auto).
+  intros Q L. destruct Q as [q1 q3 q4]. assert (Q : Quiet s) by (constructor; auto).
   unfold step. destruct (s_failed s) eqn:F; [split; [exact Q|intros x [<-|[]]; exact I]|].
   destruct o as [first last sv| |first last sv|cancel|vb e|i| | |vb|ok| |high|vb c uuid roll]; try discriminate.
   - (* RebClose *) rewrite q1. cbn. split; [exact Q|intros x [<-|[]]; exact I].
-  - (* RebOpen *) rewrite q2. cbn. split; [exact Q|intros x [<-|[]]; exact I].
   - (* Close *) rewrite q3. cbn. split; [exact Q|intros x [<-|[]]; exact I].
   - (* Deliver *)
     destruct (s_obs s vb) as [ob|] eqn:E; [|split; [exact Q|intros x [<-|[]]; exact I]].
@@ -209,7 +207,7 @@ Proof.
     { constructor; cbn; auto. intros v x Hx. apply fupd_cases in Hx. destruct Hx as [[_ ->]|[_ Hx]]; [split; congruence|eauto]. }
     destruct Hf as [->| ->].
     + split; [exact Q1|intros x []].
-    + split; [|intros x [<-|[]]; exact I]. cbn. destruct Q1 as [a b c0 d]. constructor; auto.
+    + split; [|intros x [<-|[]]; exact I]. cbn. destruct Q1 as [a c0 d]. constructor; auto.
   - (* Ack *)
     destruct (nth_error (s_ctxs s) i) as [[vb o]|]; [|split; [exact Q|intros x [<-|[]]; exact I]].
     pose proof (set_offset_spec s vb o true) as H. pose proof (set_offset_quiet_out s vb o true) as HO.
@@ -240,7 +238,7 @@ Proof.
 Qed.
 
 (* ---------- the teardown ---------- *)
-Definition late_lop (o : lop) : bool := match o with SOp o' => late_op o' | Shutdown _ _ => true end.
+Definition late_lop (o : lop) : bool := match o with SOp Crash => false | _ => true end.
 
 Definition no_delivery (x : lout) : Prop :=
   match x with SOut (Consume _ _ _ _ _ _) | SOut (OpenReq _ _) => False | _ => True end.
@@ -293,6 +291,9 @@ Proof.
 Qed.
 
 (* ... and afterwards nothing reaches the consumer and no stream is opened, whatever still arrives *)
+Lemma inert_or_late o : inert_when_down o = false -> o <> Crash -> late_op o = true.
+Proof. destruct o; cbn; try discriminate; try reflexivity. intros _ H. now elim H. Qed.
+
 Lemma quiet_lrun late : forall l,
   Quiet (l_s l) -> l_down l = true -> forallb late_lop late = true ->
   forall outs x, In outs (snd (lrun l late)) -> In x outs -> no_delivery x.
@@ -302,10 +303,13 @@ Proof.
   cbn [lrun] in Ho. destruct (lstep l o) as [l1 out1] eqn:E1. destruct (lrun l1 r) as [l2 outs2] eqn:E2.
   cbn [snd] in Ho.
   assert (G : Quiet (l_s l1) /\ l_down l1 = true /\ forall y, In y out1 -> no_delivery y).
-  { destruct o as [o'|a b]; cbn [lstep late_lop] in *.
-    - destruct (quiet_step (l_s l) o' Q H1) as [Q1 O1]. destruct (step (l_s l) o') as [s' os]. cbn [fst snd] in *.
-      injection E1 as <- <-. cbn [l_s with_s l_down]. split; [exact Q1|]. split; [exact D|].
-      intros y Hy. apply in_souts in Hy. destruct Hy as (z & -> & Hz). specialize (O1 z Hz). destruct z; try exact I; contradiction.
+  { destruct o as [o'|a b]; cbn [lstep] in *.
+    - rewrite D in E1. cbn [andb] in E1. destruct (inert_when_down o') eqn:In.
+      + injection E1 as <- <-. split; [exact Q|]. split; [exact D|]. intros y [<-|[]]. exact I.
+      + assert (L : late_op o' = true) by (apply inert_or_late; [exact In|intros ->; discriminate]).
+        destruct (quiet_step (l_s l) o' Q L) as [Q1 O1]. destruct (step (l_s l) o') as [s' os]. cbn [fst snd] in *.
+        injection E1 as <- <-. cbn [l_s with_s l_down]. split; [exact Q1|]. split; [exact D|].
+        intros y Hy. apply in_souts in Hy. destruct Hy as (z & -> & Hz). specialize (O1 z Hz). destruct z; try exact I; contradiction.
     - unfold shutdown in E1. rewrite D in E1. cbn in E1. injection E1 as <- <-. split; [exact Q|]. split; [exact D|].
       intros y [<-|[]]. exact I. }
   destruct G as (Q1 & D1 & O1). destruct Ho as [<-|Ho]; [now apply O1|].
@@ -460,27 +464,114 @@ Proof.
 Qed.
 
 (* ---------- Close() inside a rebalance window ---------- *)
-(* the rebalance has closed the stream and cleared the observer map; the teardown dies in stream.Close, before
-   the agents are closed, and Start() never returns (known finding K4) *)
+(* whenever the observer map is cleared the stream is closed and every observer object is switched off: it is
+   cleared by Close only (and before the first open, when there are no observers) *)
+Definition NilClosed (s : sstate) : Prop :=
+  s_obs_nil s = true ->
+  s_open s = false /\ forall vb ob, s_obs s vb = Some ob -> ob_closed ob = true /\ ob_end_closed ob = true.
+
+Lemma NilClosed_same_rest s s' : same_rest s s' -> NilClosed s -> NilClosed s'.
+Proof.
+  intros (_ & _ & Ho & Hn & Hop & _) H N. rewrite Hn in N. destruct (H N) as [A B]. split; [congruence|]. rewrite Ho. exact B.
+Qed.
+
+Lemma NilClosed_core s s' : core_same s s' -> NilClosed s -> NilClosed s'.
+Proof.
+  intros (_ & _ & _ & Ho & Hn & Hop & _) H N. rewrite Hn in N. destruct (H N) as [A B]. split; [congruence|]. rewrite Ho. exact B.
+Qed.
+
+Lemma NilClosed_do_close s c : NilClosed (fst (fst (do_close s c))).
+Proof.
+  unfold do_close, NilClosed; cbn. intros _. split; [reflexivity|].
+  intros vb ob. destruct (s_obs s vb); [|discriminate]. intros [= <-]. cbn. auto.
+Qed.
+
+Theorem NilClosed_step s o : NilClosed s -> NilClosed (fst (step s o)).
+Proof.
+  intros H. unfold step. destruct (s_failed s) eqn:F; [exact H|].
+  destruct o as [first last sv| |first last sv|cancel|vb e|i| | |vb|ok| |high|vb c uuid roll].
+  - destruct (s_open s || s_balancing s); [exact H|].
+    destruct (do_open s first last sv) as [[s' outs]|] eqn:EO; cbn [fst].
+    + unfold do_open in EO. destruct (load_all _ _ _ _ _ _) as [[[a b] c0]|]; [|discriminate].
+      injection EO as <- _. unfold NilClosed; cbn. discriminate.
+    + exact H.
+  - destruct (negb (s_open s) || s_balancing s); [exact H|].
+    pose proof (NilClosed_do_close (set_balancing s true (s_rebalances s)) false) as G.
+    destruct (do_close (set_balancing s true (s_rebalances s)) false) as [[s1 outs] tok]. exact G.
+  - destruct (negb (s_balancing s) || s_open s); [exact H|].
+    destruct (do_open s first last sv) as [[s' outs]|] eqn:EO; cbn [fst].
+    + unfold do_open in EO. destruct (load_all _ _ _ _ _ _) as [[[a b] c0]|]; [|discriminate].
+      injection EO as <- _. unfold NilClosed; cbn. discriminate.
+    + exact H.
+  - destruct (s_obs_nil s || s_balancing s); [exact H|].
+    pose proof (NilClosed_do_close s cancel) as G. destruct (do_close s cancel) as [[s1 outs] tok]. cbn [fst] in G.
+    destruct (tok && negb (s_stopped s1)); exact G.
+  - destruct (s_obs s vb) as [ob|] eqn:E; [|exact H].
+    pose proof (fun Hc => obs_event_closed (s_cfg s) ob e Hc) as OC.
+    destruct (obs_event (s_cfg s) ob e) as [ob' f]. cbn [fst snd] in OC.
+    assert (H1 : NilClosed (set_obs s (fupd (s_obs s) vb ob'))).
+    { intros N. cbn in N. destruct (H N) as [A B]. split; [exact A|]. cbn. intros v x Hx.
+      apply fupd_cases in Hx. destruct Hx as [[-> ->]|[_ Hx]]; [|now apply (B v x)].
+      destruct (B vb ob E) as [Hc He]. destruct (OC Hc) as (C1 & C2 & _). split; congruence. }
+    destruct f as [|k it o coll t|o|]; cbn [fst].
+    + exact H1.
+    + destruct (is_meta (i_key it)); [|exact H1].
+      pose proof (set_offset_spec (set_obs s (fupd (s_obs s) vb ob')) vb o false) as R.
+      destruct (set_offset _ vb o false) as [s' outs]. cbn [fst]. destruct R as [R _]. eapply NilClosed_same_rest; eauto.
+    + pose proof (set_offset_spec (set_obs s (fupd (s_obs s) vb ob')) vb o true) as R.
+      destruct (set_offset _ vb o true) as [s' outs]. cbn [fst]. destruct R as [R _]. eapply NilClosed_same_rest; eauto.
+    + exact H1.
+  - destruct (nth_error (s_ctxs s) i) as [[vb o]|]; [|exact H].
+    pose proof (set_offset_spec s vb o true) as R. destruct (set_offset s vb o true) as [s' outs]. cbn [fst]. destruct R as [R _].
+    eapply (NilClosed_same_rest s'); [unfold same_rest; cbn; repeat split|]. eapply NilClosed_same_rest; eauto.
+  - pose proof (save_step_core s SaveBegin eq_refl) as C. unfold step in C. rewrite F in C. eapply NilClosed_core; eauto.
+  - pose proof (save_step_core s SaveQueue eq_refl) as C. unfold step in C. rewrite F in C. eapply NilClosed_core; eauto.
+  - pose proof (save_step_core s (SaveWrite vb) eq_refl) as C. unfold step in C. rewrite F in C. eapply NilClosed_core; eauto.
+  - pose proof (save_step_core s (SaveEnd ok) eq_refl) as C. unfold step in C. rewrite F in C. eapply NilClosed_core; eauto.
+  - unfold NilClosed; cbn. intros _. split; [reflexivity|discriminate].
+  - destruct (s_obs_nil s); exact H.
+  - destruct (s_obs s vb) as [ob|] eqn:E; [|exact H]. destruct (ob_end_closed ob) eqn:EC; [exact H|].
+    assert (NN : s_obs_nil s = false).
+    { destruct (s_obs_nil s) eqn:N; [|reflexivity]. destruct (H N) as [_ B]. destruct (B vb ob E) as [_ X]. congruence. }
+    assert (G : forall s', s_obs_nil s' = s_obs_nil s -> NilClosed s') by (intros s' Hs N; congruence).
+    destruct c; cbn [fst]; try (apply G; reflexivity).
+    destruct (s_cancel s); [apply G; reflexivity|]. destruct (s_offs s vb); apply G; reflexivity.
+Qed.
+
+Lemma NilClosed_run ops : forall s, NilClosed s -> NilClosed (fst (run s ops)).
+Proof.
+  induction ops as [|o r IH]; intros s H; [exact H|]. cbn [run].
+  pose proof (NilClosed_step s o H) as H1. destruct (step s o) as [s1 o1]. cbn [fst] in H1.
+  specialize (IH s1 H1). destruct (run s1 r) as [s2 o2]. exact IH.
+Qed.
+
+(* Close() after a rebalance has closed the stream and before it has reopened it: the reopen is cancelled, there is nothing
+   left to close, the agents are closed and Start() returns (repaired defect K4) *)
 Theorem shutdown_window l r1 r2 :
-  s_failed (l_s l) = false -> l_down l = false -> s_obs_nil (l_s l) = true ->
+  s_failed (l_s l) = false -> l_down l = false -> s_obs_nil (l_s l) = true -> NilClosed (l_s l) ->
   let l' := fst (shutdown l r1 r2) in
   let outs := snd (shutdown l r1 r2) in
-  In Died outs /\ ~ In Returned outs /\ ~ In DcpClose outs /\ ~ In CliClose outs /\
-  s_failed (l_s l') = true /\ l_dcp l' = l_dcp l /\ l_cli l' = l_cli l.
+  Quiet (l_s l') /\ s_failed (l_s l') = false /\ l_down l' = true /\ l_dcp l' = false /\ l_cli l' = false /\
+  (exists pre, outs = pre ++ [DcpClose; CliClose; Returned] /\ forall x, In x pre -> no_delivery x /\ x <> Died) /\
+  ~ In Died outs.
 Proof.
-  intros F D N. unfold shutdown. rewrite D, F. cbn [orb].
+  intros F D N NC. unfold shutdown. rewrite D, F. cbn [orb].
   set (fs := if l_auto l then final_save (l_s l) r1 r2 else (l_s l, [])).
   assert (C : core_same (l_s l) (fst fs)).
   { unfold fs. destruct (l_auto l); [apply final_save_core|apply core_same_refl]. }
+  assert (O : forallb quiet_out (snd fs) = true).
+  { unfold fs. destruct (l_auto l); [apply final_save_quiet|reflexivity]. }
   destruct fs as [s1 o1]. cbn [fst snd] in *.
-  destruct C as (_ & _ & _ & _ & Cn & _).
-  rewrite Cn, N. cbn [fst snd l_s l_dcp l_cli].
-  assert (NS : forall x, In x (souts (o1 ++ [Callback BeforeStreamStop; Fail])) -> exists y, x = SOut y).
-  { intros x Hx. apply in_souts in Hx. destruct Hx as (y & -> & _). eauto. }
-  split; [apply in_or_app; right; now left|].
-  split; [|split; [|split; [|auto]]]; intros H; apply in_app_or in H; destruct H as [H|H];
-    try (destruct (NS _ H) as (y & Hy); discriminate); cbn in H; intuition discriminate.
+  pose proof (NilClosed_core _ _ C NC) as NC1.
+  destruct C as (_ & _ & _ & _ & Cn & _ & _ & _ & _ & _ & _ & _ & _ & _ & Cf).
+  assert (N1 : s_obs_nil s1 = true) by congruence. rewrite N1. cbn [fst snd l_s l_down l_dcp l_cli].
+  destruct (NC1 N1) as [Op Ob].
+  assert (NP : forall x, In x (souts o1) -> no_delivery x /\ x <> Died).
+  { intros x Hx. apply in_souts in Hx. destruct Hx as (y & -> & Hy). split; [|discriminate].
+    rewrite forallb_forall in O. specialize (O y Hy). destruct y; try exact I; discriminate. }
+  split; [constructor; assumption|]. split; [congruence|]. repeat (split; [reflexivity|]).
+  split; [exists (souts o1); split; [reflexivity|exact NP]|].
+  intros H. apply in_app_or in H. destruct H as [H|H]; [now destruct (NP _ H)|cbn in H; intuition discriminate].
 Qed.
 
 (* every reachable state of the stream core is of one of the two kinds: while a rebalance is under way the
@@ -596,4 +687,30 @@ Theorem durable_from_every_streaming_state c st0 h r1 :
 Proof.
   intros V l s F N Q. apply shutdown_durable; auto; [now apply reached_balancing|].
   cbn [reached l_s l]. apply Inv_run. now apply Inv_init.
+Qed.
+
+Lemma NilClosed_init c st : NilClosed (init_state c st).
+Proof. unfold NilClosed; cbn. intros _. split; [reflexivity|discriminate]. Qed.
+
+Theorem clean_from_every_window_state c auto st0 h r1 r2 :
+  let l := reached c auto st0 h in
+  s_failed (l_s l) = false -> s_obs_nil (l_s l) = true ->
+  let l' := fst (shutdown l r1 r2) in
+  let outs := snd (shutdown l r1 r2) in
+  Quiet (l_s l') /\ s_failed (l_s l') = false /\ l_down l' = true /\ l_dcp l' = false /\ l_cli l' = false /\
+  (exists pre, outs = pre ++ [DcpClose; CliClose; Returned] /\ forall x, In x pre -> no_delivery x /\ x <> Died) /\
+  ~ In Died outs.
+Proof.
+  intros l F N. apply shutdown_window; auto. cbn [reached l_s l]. apply NilClosed_run, NilClosed_init.
+Qed.
+
+(* from every reachable state that has not failed, whatever still arrives after the teardown reaches nobody *)
+Theorem silent_from_every_state c auto st0 h r1 r2 late :
+  let l := reached c auto st0 h in
+  s_failed (l_s l) = false -> forallb late_lop late = true ->
+  forall outs x, In outs (snd (lrun (fst (shutdown l r1 r2)) late)) -> In x outs -> no_delivery x.
+Proof.
+  intros l F HL. destruct (s_obs_nil (l_s l)) eqn:N.
+  - destruct (clean_from_every_window_state c auto st0 h r1 r2 F N) as (Q & _ & D & _). apply quiet_lrun; assumption.
+  - apply silent_from_every_streaming_state; assumption.
 Qed.
